@@ -502,4 +502,11 @@ def inputs_converted(ctx):
     return res
 
 
-RULES = [inputs_converted, c01_setters, c01_init_stores, derived_sync_rule, no_stale, newton_batch, pure, inverted_fresh, no_param_mutation, reset_first, rng_sites]
+def c03_launch_guards(ctx):
+    """shared with C03: the result for a ray does not depend on the dtype of
+    the pupil array it was requested with"""
+    from .C03 import launch_guards as _r
+    return _r(ctx)
+
+
+RULES = [c03_launch_guards, inputs_converted, c01_setters, c01_init_stores, derived_sync_rule, no_stale, newton_batch, pure, inverted_fresh, no_param_mutation, reset_first, rng_sites]
